@@ -2,6 +2,7 @@
 import itertools
 from spacepackets.ecss.tc import PusTc, PusTcDataFieldHeader
 from spacepackets.ecss import check_pus_crc
+from spacepackets.ccsds.spacepacket import SpacePacketHeader, PacketType, SequenceFlags
 from harness import pus_common as pc
 
 ID = "C02"
@@ -15,6 +16,12 @@ ENUMS = [
 ASSUMPTIONS = [
     "crcmod's C implementation of crc-ccitt-false is outside the model; it is tied to the bitwise Coq definition by C04's exhaustive comparison of the byte-update function and here by every packed packet",
     "CPython int/bytes/struct semantics as modelled in Base/Bytes.v",
+    "live-object histories (op 520): judged by design, not as defects: the telecommand keeps a reference to the caller's "
+    "bytearray / header objects (no defensive copy; app_data returns internal state); from_sp_header overwrites type, flag "
+    "and length of the caller's header and adopts it; from_composite_fields keeps the caller's data length; "
+    "to_space_packet() omits the secondary header when sec_header_flag was cleared while pack() always writes it; "
+    "pack(recalc_crc=False) after a field change carries the cached CRC (documented); the value of crc16 between a field "
+    "change and the next pack is not judged by the oracle (only compared with the model)",
 ]
 TRUSTED = []
 ORACLE_LIMIT = {"quick": 6000, "thorough": 40000}
@@ -73,7 +80,388 @@ def impl(op, a):
         sp = t.to_space_packet().pack()
         raw = t.pack()
         return [list(sp), list(raw), [t.packet_len]]
+    if op == 520:
+        return _hist(a)
     raise RuntimeError("bad op")
+
+
+# ---------------------------------------------------------------- extended histories (op 520)
+# a[0] = [path, service, subservice, apid, count, source_id, ack, bufkind, ptype, shf, flags, version, dlen]
+# a[1] = application data; a[2:] = operations [kind, ...] (kinds: see _hist_op)
+def _canon(e):
+    from harness import core
+    return core.canon_code(core.classify_exception(e))
+
+
+def _enum(cls, v):
+    """the library's own enum member where one exists (what a caller would pass), else the bare int"""
+    try:
+        return cls(v)
+    except ValueError:
+        return v
+
+
+def _mk_sph(ptype, apid, count, dlen, shf, flags, version):
+    return SpacePacketHeader(packet_type=_enum(PacketType, ptype), apid=apid, seq_count=count, data_len=dlen,
+                             sec_header_flag=bool(shf) if shf in (0, 1) else shf, seq_flags=_enum(SequenceFlags, flags),
+                             ccsds_version=version)
+
+
+class _Owned:
+    """buffers that belong to the caller: the library may read them, never change them"""
+    def __init__(self):
+        self.items = []
+
+    def give(self, octets, kind):
+        if kind == 0:
+            return bytes(octets)
+        b = bytearray(octets)
+        self.items.append([b, bytes(b)])
+        return b
+
+    def refresh(self, b):
+        for it in self.items:
+            if it[0] is b:
+                it[1] = bytes(b)
+
+    def changed(self):
+        return sum(1 for b, snap in self.items if bytes(b) != snap)
+
+    def handed_out(self, b):
+        """an octet string the library returned (pack result, parts of a generic view): later calls on the
+        object must not change it"""
+        if not hasattr(self, "out"):
+            self.out = []
+        if isinstance(b, (bytearray, memoryview)):
+            self.out.append((b, bytes(b)))
+        return b
+
+    def out_changed(self):
+        return sum(1 for b, snap in getattr(self, "out", []) if bytes(b) != snap)
+
+
+def _make(p, app, owned):
+    path, service, subservice, apid, count, source_id, ack, kind, ptype, shf, flags, version, dlen = p
+    if path == 0:
+        return PusTc(service=service, subservice=subservice, apid=apid, app_data=owned.give(app, kind), seq_count=count,
+                     source_id=source_id, ack_flags=ack)
+    if path == 1:
+        h = _mk_sph(ptype, apid, count, dlen, shf, flags, version)
+        return PusTc.from_sp_header(h, service, subservice, owned.give(app, kind), source_id, ack)
+    if path == 2:
+        h = _mk_sph(ptype, apid, count, dlen, shf, flags, version)
+        return PusTc.from_composite_fields(h, PusTcDataFieldHeader(service, subservice, source_id, ack), owned.give(app, kind))
+    if path == 3:
+        raw = PusTc(service=service, subservice=subservice, apid=apid, app_data=bytes(app), seq_count=count,
+                    source_id=source_id, ack_flags=ack).pack()
+        buf = bytes(raw) if kind == 0 else bytearray(raw)
+        t = PusTc.unpack(buf)
+        if kind != 0:
+            # the receive buffer is reused by the caller: the decoded telecommand must not depend on it
+            for i in range(len(buf)):
+                buf[i] ^= 0xFF
+            buf.extend(b"\x5a" * 7)
+        return t
+    if path == 4:
+        return PusTc.empty()
+    if path == 5:
+        return PusTc(service, subservice)
+    raise RuntimeError("bad path")
+
+
+def _inspect(t):
+    return _fields(t) + [[t.service, t.subservice, t.source_id, t.apid, t.seq_count, t.ccsds_version, int(t.packet_id.raw()),
+                          int(t.packet_seq_control.raw()), int(t.packet_type), int(t.sec_header_flag), int(t.seq_flags)]]
+
+
+_HDR_ENUM = {1: PacketType, 4: SequenceFlags}
+
+
+def _set_hdr(t, f, v, route):
+    """assignment of one primary-header attribute through one of the public routes"""
+    w = _enum(_HDR_ENUM[f], v) if f in _HDR_ENUM else (bool(v) if f == 2 and v in (0, 1) else v)
+    h = t.sp_header
+    if f == 1:
+        if route % 2 == 0: h.packet_type = w
+        else: h.packet_id.ptype = w
+    elif f == 2:
+        if route % 2 == 0: h.sec_header_flag = w
+        else: t.packet_id.sec_header_flag = w
+    elif f == 3:
+        r = route % 4
+        if r == 0: t.apid = w
+        elif r == 1: h.apid = w
+        elif r == 2: h.packet_id.apid = w
+        else: t.packet_id.apid = w
+    elif f == 4:
+        r = route % 3
+        if r == 0: h.seq_flags = w
+        elif r == 1: h.packet_seq_control.seq_flags = w
+        else: t.packet_seq_control.seq_flags = w
+    elif f == 5:
+        r = route % 4
+        if r == 0: t.seq_count = w
+        elif r == 1: h.seq_count = w
+        elif r == 2: h.packet_seq_control.seq_count = w
+        else: t.packet_seq_control.seq_count = w
+    elif f == 6:
+        h.data_len = w
+    else:
+        raise RuntimeError("no public route to header field %d" % f)
+
+
+def _hist_op(st, o, owned):
+    """one operation on the live object st['t']; returns the observation lists"""
+    t, k = st["t"], o[0]
+    if k == 0: return [list(owned.handed_out(t.pack()))]
+    if k == 1: return [list(owned.handed_out(t.pack(recalc_crc=False)))]
+    if k == 2: t.calc_crc(); return []
+    if k == 3: t.app_data = bytes(o[1:]); return []
+    if k == 4: _set_hdr(t, 5, o[1], 0); return []
+    if k == 5: _set_hdr(t, 3, o[1], 0); return []
+    if k == 6: t.source_id = o[1]; return []
+    if k == 7:
+        v = t.to_space_packet()
+        owned.handed_out(v.sec_header); owned.handed_out(v.user_data)
+        return [list(owned.handed_out(v.pack()))]
+    if k == 8: return _inspect(t)
+    if k == 9: t.app_data = owned.give(o[1:], 1); return []
+    if k == 10:
+        cur = t.app_data
+        if not isinstance(cur, bytearray):
+            cur = owned.give(cur, 1); t.app_data = cur
+        cur.extend(bytes(o[1:])); owned.refresh(cur)
+        t.app_data = cur
+        return []
+    if k == 23: t.sp_header = _mk_sph(*o[1:8]); return []
+    if k == 24: t.pus_tc_sec_header = PusTcDataFieldHeader(o[1], o[2], o[3], o[4]); return []
+    if k == 25: return [[int(t == st["t0"]), int(st["t0"] == t)]]
+    if k == 26:
+        raw = t.pack(); u = PusTc.unpack(bytes(raw)); return [[int(u == t)]] + _fields(u)
+    if k == 27:
+        raw = t.pack(); st["t"] = PusTc.unpack(bytes(raw) if len(o) < 2 or o[1] == 0 else bytearray(raw)); return []
+    if k == 30: _set_hdr(t, o[1], o[2], o[3] if len(o) > 3 else 0); return []
+    if k == 31:
+        f, v = o[1], o[2]
+        if f == 2 and len(o) > 3 and o[3] % 2 == 1: t.source_id = v
+        else: setattr(t.pus_tc_sec_header, ("service", "subservice", "source_id", "ack_flags")[f], v)
+        return []
+    return _inspect(t)
+
+
+CLOSING = [[8], [7], [8], [0], [8]]
+
+
+def _hist(a):
+    owned = _Owned()
+    st = {"t0": _make(a[0], a[1], _Owned()), "t": None}
+    st["t"] = _make(a[0], a[1], owned)
+    out = []
+    for o in list(a[2:]) + CLOSING:
+        try:
+            r = _hist_op(st, o, owned)
+        except BaseException as e:  # noqa
+            if isinstance(e, (KeyboardInterrupt, SystemExit, MemoryError, RuntimeError)):
+                raise
+            out.append([1, _canon(e)])
+            continue
+        out.append([0]); out.extend(r)
+    out.append([owned.changed(), owned.out_changed()])
+    return out
+
+
+# table-driven CRC-16/CCITT-FALSE derived from the bitwise definition in pus_common (independent of
+# crcmod); used where the oracle has to check many long packets
+_TAB = [pc.crc16([b], 0) for b in range(256)]
+
+
+def fcrc(data, s=0xFFFF):
+    for b in data:
+        s = ((s << 8) & 0xFFFF) ^ _TAB[(s >> 8) ^ b]
+    return s
+
+
+assert all(fcrc(m) == pc.crc16(m) for m in ([], [0], [0xFF] * 3, list(range(40)), [0x80, 0, 0xFF] * 9))
+
+
+def tc_octets(S):
+    """the octets the standard prescribes for the CURRENT field values S (no CRC)"""
+    return pc.sph_layout(S["ver"], S["ptype"], S["shf"], S["apid"], S["flags"], S["count"], S["dlen"]) + \
+        [32 + S["ack"], S["service"], S["subservice"], S["source_id"] // 256, S["source_id"] % 256] + list(S["app"])
+
+
+_RANGES = {"ver": 8, "ptype": 2, "shf": 2, "apid": 2048, "flags": 4, "count": 16384, "dlen": 65536, "service": 256,
+           "subservice": 256, "source_id": 65536, "ack": 16}
+_HDR_KEYS = ["ver", "ptype", "shf", "apid", "flags", "count", "dlen"]
+_SEC_KEYS = ["service", "subservice", "source_id", "ack"]
+
+
+def _in_range(S):
+    return all(0 <= S[k] < hi for k, hi in _RANGES.items())
+
+
+def _crc2(body):
+    c = fcrc(body)
+    return [c // 256, c % 256]
+
+
+def _initial_state(a):
+    """tracked field values right after construction; None when the construction must be refused or
+    is not predicted by the oracle"""
+    path, service, subservice, apid, count, source_id, ack, kind, ptype, shf, flags, version, dlen = a[0]
+    app = list(a[1])
+    S = {"ver": 0, "ptype": 1, "shf": 1, "apid": apid, "flags": 3, "count": count, "dlen": len(app) + 6,
+         "service": service, "subservice": subservice, "source_id": source_id, "ack": ack, "app": app, "crc": None}
+    if path in (1, 2):
+        S.update({"ver": version, "flags": flags})
+        if not (0 <= dlen < 65536):
+            return None
+        if path == 2:
+            S.update({"ptype": ptype, "shf": shf, "dlen": dlen})
+            if ptype == 0:
+                return None
+    elif path == 4:
+        S.update({"apid": 0, "count": 0, "service": 0, "subservice": 0, "source_id": 0, "ack": 15, "app": [], "dlen": 6})
+    elif path == 5:
+        S.update({"apid": 0, "count": 0, "source_id": 0, "ack": 15, "app": [], "dlen": 6})
+    if not (0 <= S["apid"] < 2048 and 0 <= S["count"] < 16384 and 0 <= S["dlen"] < 65536):
+        return None
+    if path == 3:
+        if not _in_range(S):
+            return None
+        S["crc"] = _crc2(tc_octets(S)); S["fresh"] = True
+    return S
+
+
+def _hist_oracle(a, ires):
+    """C11 / C02 on a live object: whatever happened before, pack() yields the standard's octets for the
+    current field values, the generic space-packet view yields the same octets, every getter shows the
+    current values, reported length = packed length, nothing the caller owns was changed."""
+    S = _initial_state(a)
+    if ires[0][0] == 1:
+        if S is not None and _in_range(S):
+            return ("C02/PusTc/valid-refused", "valid construction (path %d) raised %s: %s" % (a[0][0], ires, a[0]))
+        return None
+    if S is None:
+        return None
+    S0 = dict(S)
+    obs, pos = ires[1:], 0
+    ops = [list(o) for o in a[2:]] + CLOSING
+    for n, o in enumerate(ops):
+        where = "operation %d %s of %s (path %d, buffer kind %d)" % (n, o[:8], [x[:6] for x in ops], a[0][0], a[0][7])
+        if pos >= len(obs) - 1:
+            return ("C02/PusTc.history/observations", "observation list too short at " + where)
+        st = obs[pos]; pos += 1
+        ok = st[0] == 0
+        k = o[0]
+        good = _in_range(S)
+        body = tc_octets(S) if good else None
+        if k in (0, 1, 7):
+            out = None
+            if ok:
+                out = obs[pos]; pos += 1
+            if not good:
+                if ok:
+                    S["crc"] = "?"
+                continue
+            if not ok:
+                return ("C11/PusTc.history/raises", "valid state, yet %s raised %s; fields %s" % (where, st, {x: S[x] for x in _RANGES}))
+            fresh = _crc2(body)
+            if k == 1:
+                if S["crc"] == "?":
+                    continue
+                # documented: the CRC "previously calculated" is reused; a library that refreshes its cache more
+                # often than the model is not wrong, so the fresh CRC is acceptable too
+                cands = [fresh] if S["crc"] is None else [S["crc"], fresh]
+                if out[:-2] != body or out[-2:] not in cands:
+                    return ("C02/PusTc.pack/recalc-false", "%s: pack(recalc_crc=False) gives %s ... %s, expected the current fields followed by the CRC cached by the last pack/calc_crc %s" % (where, out[:12], out[-6:], cands))
+                S["crc"] = out[-2:]
+                S["fresh"] = S["crc"] == fresh
+                continue
+            S["crc"] = fresh; S["fresh"] = True
+            if k == 0 and out != body + fresh:
+                return ("C11/PusTc.history/pack-differs-from-fresh", "%s: pack() gives %s, the current field values %s prescribe %s" % (
+                    where, out[:24], {x: S[x] for x in _RANGES}, (body + fresh)[:24]))
+            if k == 7 and S["shf"] == 1 and out != body + fresh:
+                return ("C02/PusTc.to_space_packet/stale-octets", "%s: the space-packet view packs %s ... %s, pack() must give %s ... %s" % (
+                    where, out[:12], out[-6:], body[:12], (body + fresh)[-6:]))
+            continue
+        if k == 2:
+            if ok and good: S["crc"] = _crc2(body); S["fresh"] = True
+            elif ok: S["crc"] = "?"
+            elif good:
+                return ("C11/PusTc.history/raises", "valid state, yet calc_crc raised: " + where)
+            continue
+        if k in (3, 4, 5, 6, 9, 10, 11, 22, 23, 24, 30, 31):
+            S["fresh"] = False
+        if k in (3, 9, 10):
+            if not ok:
+                return ("C11/PusTc.app_data/raises", where + " raised %s" % st)
+            S["app"] = (S["app"] if k == 10 else []) + list(o[1:])
+            S["dlen"] = len(S["app"]) + 6
+            continue
+        if k in (4, 5, 6, 30, 31):
+            if not ok:
+                return ("C11/PusTc.setter/raises", where + " raised %s" % st)
+            if k == 4: S["count"] = o[1]
+            elif k == 5: S["apid"] = o[1]
+            elif k == 6: S["source_id"] = o[1]
+            elif k == 30: S[_HDR_KEYS[o[1]]] = o[2]
+            else: S[_SEC_KEYS[o[1]]] = o[2]
+            continue
+        if k == 23:
+            if ok:
+                ptype, apid, count, dlen, shf, flags, version = o[1:8]
+                S.update({"ver": version, "ptype": ptype, "shf": shf, "apid": apid, "flags": flags, "count": count, "dlen": dlen})
+            continue
+        if k == 24:
+            if ok:
+                S.update({"service": o[1], "subservice": o[2], "source_id": o[3], "ack": o[4]})
+            continue
+        if k == 25:
+            if ok:
+                out = obs[pos]; pos += 1
+                if good and _in_range(S0):
+                    e = int(tc_octets(S) == tc_octets(S0))
+                    if out != [e, e]:
+                        return ("C02/PusTc.__eq__", "%s: == with an untouched twin gives %s, the field values say %d" % (where, out, e))
+            continue
+        if k in (26, 27):
+            consistent = good and S["dlen"] == len(S["app"]) + 6
+            if not ok:
+                if consistent:
+                    return ("C02/PusTc.unpack/own-output-refused", "%s: the object's own pack() output is refused: %s" % (where, st))
+                # pack may or may not have happened: the cache is not predicted any more
+                S["crc"] = "?"
+                continue
+            if not consistent:
+                return None   # decoding an inconsistent packet that happens to be accepted: not predicted
+            S["crc"] = _crc2(body); S["fresh"] = True
+            if k == 26:
+                out = obs[pos:pos + 6]; pos += 6
+                exp = [[1], [S[x] for x in _HDR_KEYS], [S[x] for x in _SEC_KEYS], S["app"], [1] + S["crc"], [S["dlen"] + 7]]
+                if out != exp:
+                    return ("C02/PusTc.unpack/fields" if out[0] == [1] else "C02/PusTc.unpack/not-equal",
+                            "%s: decoding the object's own pack() gives %s, expected %s" % (where, str(out)[:200], str(exp)[:200]))
+            continue
+        # inspect (8 and anything unknown)
+        if not ok:
+            return ("C02/PusTc.history/getter-raises", where + " raised %s" % st)
+        out = obs[pos:pos + 6]; pos += 6
+        exp = [[S[x] for x in _HDR_KEYS], [S[x] for x in _SEC_KEYS], S["app"],
+               [1] + S["crc"] if S.get("fresh") and S["crc"] not in (None, "?") else out[3], [S["dlen"] + 7],
+               [S["service"], S["subservice"], S["source_id"], S["apid"], S["count"], S["ver"],
+                S["ptype"] * 4096 + S["shf"] * 2048 + S["apid"] if good else out[5][6],
+                S["flags"] * 16384 + S["count"] if good else out[5][7], S["ptype"], S["shf"], S["flags"]]]
+        names = ["primary header", "secondary header", "app_data", "crc16", "packet_len", "getters"]
+        for nm, x, y in zip(names, out, exp):
+            if x != y:
+                return ("C11/PusTc.history/state-differs", "%s: %s reads %s, the operations so far prescribe %s" % (where, nm, x[:24], y[:24]))
+    if obs[-1][0] != 0:
+        return ("C11/PusTc/caller-buffer-modified", "%d bytearray(s) owned by the caller were changed by the library during %s" % (obs[-1][0], [x[:6] for x in ops]))
+    if obs[-1][1] != 0:
+        return ("C11/PusTc/returned-octets-changed-later", "%d octet string(s) returned by pack() / to_space_packet() changed when the object was used again: %s" % (obs[-1][1], [x[:6] for x in ops]))
+    return None
 
 
 def _final_values(a):
@@ -194,12 +582,250 @@ def streams(tier, rng):
             else: ops.append([k])
         cases.append((510, a + ops))
     yield "setter_histories_then_views", "exact", cases
+    yield from hardening_streams(tier, rng)
+
+
+# ---------------------------------------------------------------- generators of the hardening round
+HDR_ROUTES = {1: 2, 2: 2, 3: 4, 4: 3, 5: 4, 6: 1}          # header field -> number of public routes to it
+NEAR_256 = sorted({m + d for m in (256, 512, 768, 1024) for d in range(-8, 9)})
+PATTERNS = [lambda n: [0] * n, lambda n: [0xFF] * n, lambda n: [0x80] * n, lambda n: [0x7F, 0x80] * (n // 2) + [0xFF] * (n % 2),
+            lambda n: [(i * 7) & 0xFF for i in range(n)]]
+
+
+def _hist_params(rng, path=None, n=None, kind=None, consistent=True):
+    b = pc.rand_tc_args(rng, 12)
+    service, subservice, apid, count, source_id, ack = b[0]
+    if n is None:
+        n = len(b[1]) if rng.random() < 0.9 else rng.choice([250, 255, 256, 506, 511, 512, 513, 520, 1024])
+    app = pc.rbytes(rng, n) if rng.random() < 0.8 else rng.choice(PATTERNS)(n)
+    path = rng.choice([0, 0, 1, 1, 2, 2, 3, 3, 4, 5]) if path is None else path
+    kind = rng.randrange(2) if kind is None else kind
+    ptype, shf, dlen = 1, 1, n + 6
+    if path == 1:   # everything from_sp_header overwrites may be anything
+        ptype, shf, dlen = rng.randrange(2), rng.randrange(2), rng.choice([0, n + 6, 65535, rng.randrange(65536)])
+    if path == 2 and not consistent:
+        ptype, shf, dlen = rng.choice([1, 1, 1, 0]), rng.choice([1, 1, 0]), rng.choice([n + 6, n + 6, 0, n + 5, n + 7, 65535])
+    return [[path, service, subservice, apid, count, source_id, ack, kind, ptype, shf, rng.choice([3, 3, 0, 1, 2]),
+             rng.choice([0, 0, 7, rng.randrange(8)]), dlen], app]
+
+
+def _rand_setter(rng, cur_len, wild=False):
+    """one mutation through a randomly chosen public route; values in range unless wild"""
+    r = rng.random()
+    if r < 0.5:
+        f = rng.choice([1, 2, 2, 3, 3, 4, 5, 5, 6])
+        hi = _RANGES[_HDR_KEYS[f]]
+        v = pc.pick(rng, [0, 1, hi - 1, hi // 2], hi)
+        if f == 2 and rng.random() < 0.7: v = 1
+        if f == 6 and rng.random() < 0.7: v = cur_len + 6
+        if wild: v = rng.choice([-1, hi, hi + 1, 2 ** 16, 2 ** 32])
+        return [30, f, v, rng.randrange(HDR_ROUTES[f])]
+    if r < 0.85:
+        f = rng.randrange(4)
+        hi = _RANGES[_SEC_KEYS[f]]
+        v = pc.pick(rng, [0, 1, hi - 1, hi // 2], hi)
+        if wild: v = rng.choice([-1, hi, hi + 1, 2 ** 16])
+        return [31, f, v, rng.randrange(2)]
+    if r < 0.93:
+        return [24, pc.pick(rng, pc.BND8, 256), pc.pick(rng, pc.BND8, 256), pc.pick(rng, pc.BND16, 65536), rng.randrange(16)]
+    return [23, rng.choice([1, 1, 0]), pc.pick(rng, pc.BND11, 2048) if not wild else 2048, pc.pick(rng, pc.BND14, 16384),
+            rng.choice([cur_len + 6, cur_len + 6, rng.randrange(65536)]), rng.choice([1, 1, 0]), rng.randrange(4), rng.randrange(8)]
+
+
+def _rand_ops(rng, n0, maxops=10, wild_p=0.0):
+    ops, cur = [], n0
+    for _ in range(rng.randrange(0, maxops + 1)):
+        r = rng.random()
+        if r < 0.30:
+            ops.append([rng.choice([0, 0, 1, 2, 7, 7, 7, 8, 8])])
+        elif r < 0.36:
+            ops.append([rng.choice([25, 26, 27, 27])] + ([rng.randrange(2)]))
+        elif r < 0.55:
+            k = rng.choice([3, 9, 9, 10, 10])
+            n = rng.randrange(0, 10) if rng.random() < 0.9 else rng.choice([256, 500, 512, 513])
+            d = pc.rbytes(rng, n) if rng.random() < 0.8 else rng.choice(PATTERNS)(n)
+            cur = cur + n if k == 10 else n
+            ops.append([k] + d)
+            if rng.random() < 0.15:
+                ops.append([k] + d)                     # the same value assigned twice
+                if k == 10: cur += n
+        else:
+            o = _rand_setter(rng, cur, wild=rng.random() < wild_p)
+            ops.append(o)
+            if o[0] == 23: pass
+            if rng.random() < 0.15:
+                ops.append(list(o))
+    return ops
+
+
+def _all_mutations(rng, cur_len):
+    """one instance of every mutation route"""
+    out = [[3] + pc.rbytes(rng, 3), [9] + pc.rbytes(rng, 3), [10] + pc.rbytes(rng, 2), [3] + [], [9] + [],
+           [4, pc.pick(rng, pc.BND14, 16384)], [5, pc.pick(rng, pc.BND11, 2048)], [6, pc.pick(rng, pc.BND16, 65536)]]
+    for f, nr in HDR_ROUTES.items():
+        hi = _RANGES[_HDR_KEYS[f]]
+        for route in range(nr):
+            v = rng.randrange(hi) if f != 6 else cur_len + 6 + rng.choice([0, 0, 1])
+            out.append([30, f, v, route])
+    for f in range(4):
+        for route in range(2 if f == 2 else 1):
+            out.append([31, f, rng.randrange(_RANGES[_SEC_KEYS[f]]), route])
+    out.append([24, rng.randrange(256), rng.randrange(256), rng.randrange(65536), rng.randrange(16)])
+    out.append([23, 1, rng.randrange(2048), rng.randrange(16384), cur_len + 6, 1, rng.randrange(4), rng.randrange(8)])
+    out.append([23, 1, 2048, 1, cur_len + 6, 1, 3, 0])          # refused: the object must be unchanged afterwards
+    out.append([23, 1, 1, 16384, cur_len + 6, 1, 3, 0])
+    return out
+
+
+def _directed(rng, d):
+    """operation sequences a cache or short-cut in a setter would get wrong"""
+    n = len(d)
+    return [
+        [[3] + d, [30, 6, n + 9, 0], [3] + d],                 # same value again after the length field was disturbed
+        [[9] + d, [30, 6, 0, 0], [10]],                        # same buffer object assigned again, nothing appended
+        [[9] + d, [7], [10, 1], [7], [10, 2], [0]],            # in-place growth of the caller's buffer between views
+        [[3] + d, [0], [3] + d, [1]],                          # identical value: the cached CRC is still right
+        [[0], [30, 5, 1, 1], [30, 5, 1, 1], [1], [7]],
+        [[7], [7], [7], [0]],
+        [[2], [31, 2, 513, 1], [7], [31, 2, 513, 0], [7]],
+        [[27, 1], [7], [8], [27, 0], [7], [10, 5], [7]],       # decoded from a bytearray / from bytes, then used
+        [[23, 1, 2048, 0, 6, 1, 3, 0], [8], [0]],              # refused replacement, then all views
+    ]
+
+
+def hardening_streams(tier, rng):
+    big = tier == "thorough"
+    # A. size sweeps: every application-data length through new / pack / unpack / equality and through
+    #    unpack / re-pack of an independently built packet with a suffix
+    cases = []
+    top = 4200 if big else 1100
+    for n in range(0, top + 1):
+        a = [[pc.pick(rng, pc.BND8, 256), rng.randrange(256), pc.pick(rng, pc.BND11, 2048), pc.pick(rng, pc.BND14, 16384),
+              pc.pick(rng, pc.BND16, 65536), rng.randrange(16)], pc.rbytes(rng, n) if n % 5 else rng.choice(PATTERNS)(n)]
+        cases.append((505, a))
+        if n in NEAR_256 or n % 64 in (0, 1, 63) or big:
+            pkt = _layout_fast(*a[0], a[1])
+            cases.append((502, [pkt + pc.rbytes(rng, rng.choice([0, 1, 2, 255, 1000]))]))
+            cases.append((503, [pkt]))
+            cases.append((504, a))
+    big_sizes = [4095, 4096, 4097, 65528, 65529] + ([8191, 8192, 16384, 32767, 32768, 65527] if big else [])
+    if big:                                                      # coarse steps up to the field's limit
+        for n in range(4200, 65529, 251):
+            cases.append((505, [[17, 1, rng.randrange(2048), rng.randrange(16384), rng.randrange(65536), 15], pc.rbytes(rng, n)]))
+    for n in big_sizes:
+        a = [[17, 1, 0x7FF, 0x3FFF, 0xFFFF, 15], pc.rbytes(rng, n)]
+        cases.append((505, a))
+        if big or n != 65528:
+            cases.append((504, a)); cases.append((503, [_layout_fast(*a[0], a[1])]))
+    for n in (65530, 65531):
+        cases.append((501, [[17, 1, 1, 1, 1, 15], [0] * n])); cases.append((504, [[17, 1, 1, 1, 1, 15], [0] * n]))
+    pkt = _layout_fast(17, 1, 1, 1, 1, 15, pc.rbytes(rng, 20))       # a long backlog behind the packet
+    cases.append((502, [pkt + pc.rbytes(rng, 70000)])); cases.append((503, [pkt + pkt * 40]))
+    yield "size_sweep_pack_unpack", "exact", cases
+    # B. three interacting boundary values at once: APID x count x source ID at their limits together with data
+    #    lengths that put the length field on an octet boundary, and CRC values with special octets
+    cases = []
+    lens = [0, 1, 249, 250, 251, 505, 506, 507] + ([65528, 65529] if big else [])
+    for ap, sq, sid in itertools.product([0, 2047], [0, 16383], [0, 255, 256, 65535]):
+        for n in lens:
+            for ack, sv in ((0, 0), (15, 255)):
+                a = [[sv, 255 - sv, ap, sq, sid, ack], rng.choice(PATTERNS)(n)]
+                cases.append((505, a)); cases.append((504, a))
+    for n in ([65529] if not big else []):
+        for ap, sq, sid in ((2047, 16383, 65535),):
+            a = [[255, 255, ap, sq, sid, 15], [0xFF] * n]
+            cases.append((505, a)); cases.append((504, a))
+    for target in (0x0000, 0xFFFF, 0x00FF, 0xFF00, 0x0001, 0x0100, 0x8000, 0x0080, 0x2000, 0x0020):
+        for n in (2, 9, 250):
+            a = pc.rand_tc_args(rng, 4)
+            a[1] = _force_crc(a[0], pc.rbytes(rng, n), target)
+            cases.append((505, a)); cases.append((504, a)); cases.append((509, a))
+            cases.append((520, [[3] + a[0] + [1, 1, 1, 3, 0, n + 6], a[1], [7], [8], [1]]))
+    yield "triple_boundaries_and_crc_patterns", "exact", cases
+    # C. every mutation route x every way the CRC cache can have been filled x every view afterwards
+    cases = []
+    primes = [[], [[0]], [[2]], [[7]], [[0], [1]], [[7], [7]]]
+    for rep in range(3 if big else 1):
+        for path, kind in ((0, 1), (1, 1), (2, 0), (3, 0), (3, 1)) + (((0, 0),) if big else ()):
+            for pr in primes:
+                base = _hist_params(rng, path=path, kind=kind, n=rng.randrange(0, 9))
+                muts = _all_mutations(rng, len(base[1]))
+                for m in muts + [None]:
+                    for v in ([7], [0], [1], [26]):
+                        ops = [list(x) for x in pr] + ([list(m)] if m is not None else []) + [v, [8]]
+                        cases.append((520, base + ops))
+                for m in muts:                                   # the same assignment twice
+                    cases.append((520, base + [list(x) for x in pr] + [list(m), list(m), [7], [8]]))
+                for seq in _directed(rng, pc.rbytes(rng, rng.choice([0, 1, 5]))):
+                    cases.append((520, base + [list(x) for x in pr] + seq))
+    yield "live_object_every_route_then_views", "exact", cases
+    # D. random histories up to 10 operations over all construction paths, bytes and bytearray payloads
+    cases = []
+    for _ in range(12000 if big else 1500):
+        base = _hist_params(rng, consistent=rng.random() < 0.85)
+        cases.append((520, base + _rand_ops(rng, len(base[1]), 10, wild_p=0.08)))
+    yield "histories_live_object", "exact", cases
+    # E. alternate constructors on their own (closing sequence of op 520 = views, packs, getters)
+    cases = []
+    for _ in range(3000 if big else 600):
+        base = _hist_params(rng, consistent=rng.random() < 0.6)
+        if rng.random() < 0.1:
+            base[0][3] = rng.choice([-1, 2048, 2 ** 16]); 
+        if rng.random() < 0.1:
+            base[0][4] = rng.choice([-1, 16384])
+        if rng.random() < 0.05:
+            base[0][12] = rng.choice([-1, 65536])
+        cases.append((520, base))
+    for path, kind, n in ([(0, 1, 65529), (3, 1, 65529)] if not big else
+                          [(p_, k_, n_) for p_ in (0, 1, 2, 3) for k_ in (0, 1) for n_ in (65528, 65529)]):
+        cases.append((520, _hist_params(rng, path=path, kind=kind, n=n)))
+    yield "alternate_construction_paths", "exact", cases
+    # F. size sweep of the setters on a live object (bytes, bytearray, in-place growth), views in between
+    cases = []
+    sizes = sorted(set(NEAR_256) | {0, 1, 2, 63, 64, 65, 127, 128, 129, 255, 1100} | ({2048, 4095, 4096, 4097} if big else set()))
+    for i, n in enumerate(sizes):
+        for k in ((3, 9, 10) if big or n < 300 else ((3, 9, 10)[i % 3],)):
+            base = _hist_params(rng, path=rng.choice([0, 1, 3]), n=rng.randrange(0, 4))
+            d = pc.rbytes(rng, n)
+            cases.append((520, base + [[7], [k] + d, [7], [8], [0], [10, 1, 2], [7], [8]]))
+    for n in sizes:                                              # decoded from a receive buffer of every size, buffer reused
+        if n >= 250 and (big or abs(((n + 128) % 256) - 128) <= 2 or n == 1100):
+            cases.append((520, _hist_params(rng, path=3, kind=1, n=n) + [[8], [7], [8]]))
+            cases.append((520, _hist_params(rng, path=rng.choice([0, 1, 2]), kind=1, n=n) + [[7], [8], [7]]))
+    for n in ((65520, 65527) if big else (65527,)):
+        base = _hist_params(rng, path=0, kind=1, n=2)
+        cases.append((520, base + [[9] + [0xFF] * n, [7], [10, 1, 2], [8]]))
+    yield "live_object_size_sweep", "exact", cases
+
+
+def _layout_fast(service, subservice, apid, seq, source_id, ack, app):
+    body = pc.sph_layout(0, 1, 1, apid, 3, seq, 5 + len(app) + 1) + [32 + ack, service, subservice, source_id // 256, source_id % 256] + list(app)
+    return body + _crc2(body)
+
+
+def _force_crc(fields, app, target):
+    """application data whose last two octets are chosen such that the packet's CRC is `target`"""
+    service, subservice, apid, seq, source_id, ack = fields
+    app = list(app)
+    body = pc.sph_layout(0, 1, 1, apid, 3, seq, 5 + len(app) + 1) + [32 + ack, service, subservice, source_id // 256, source_id % 256] + app[:-2]
+    s = fcrc(body)
+    for x in range(65536):
+        if fcrc([x >> 8, x & 255], s) == target:
+            return app[:-2] + [x >> 8, x & 255]
+    raise RuntimeError("no preimage")
+
+
+_SPEC_SIZES = set(NEAR_256) | {4096, 65529}
 
 
 def oracle_spec(case, ires):
     op, a = case
     if op in (501, 504, 505, 509) and valid_args(a):
-        return [(550, a[:2])]
+        n = len(a[1])
+        # the Coq transcription of the layout is cross-checked against the oracle's on every small packet and
+        # on the sizes around the 256-multiples; elsewhere in the size sweep it would only repeat the CRC
+        if n <= 300 or n in _SPEC_SIZES:
+            return [(550, a[:2])]
     return []
 
 
@@ -217,7 +843,7 @@ def oracle(case, ires, sres):
             return None
         if err:
             return ("C02/PusTc/valid-refused", "valid telecommand raised %s: %s" % (ires, a[0]))
-        exp = pc.tc_layout(service, subservice, apid, seq, source_id, ack, a[1])
+        exp = _layout_fast(service, subservice, apid, seq, source_id, ack, a[1])
         if op == 500:
             if ires[1] != [0, 1, 1, apid, 3, seq, len(a[1]) + 6] or ires[2] != [service, subservice, source_id, ack] or ires[3] != a[1] or ires[5] != [len(exp)]:
                 return ("C02/PusTc.__init__/fields", "%s -> %s" % (a, ires))
@@ -246,7 +872,7 @@ def oracle(case, ires, sres):
         n = b[4] * 256 + b[5] + 7
         if n < 13:
             return ("C02/PusTc.unpack/small-declared-length", "declared packet length %d (< 13) accepted; fields read beyond the packet: %s" % (n, b[:16]))
-        if len(b) < n or pc.crc16(b[:n]) != 0:
+        if len(b) < n or fcrc(b[:n]) != 0:
             return ("C02/PusTc.unpack/accepts-invalid", "accepted although short or CRC wrong: %s" % (b[:20],))
         if ires[3] != b[11:n - 2] or ires[2] != [b[7], b[8], b[9] * 256 + b[10], b[6] & 15] or ires[5] != [n]:
             return ("C02/PusTc.unpack/fields", "decoded %s from %s" % (ires[1:4], b[:20]))
@@ -262,7 +888,7 @@ def oracle(case, ires, sres):
     if op == 507:
         service, subservice, apid, seq, source_id, ack = a[0]
         if valid_args([a[0], a[2]]) and valid_args(a):
-            exp = pc.tc_layout(service, subservice, apid, seq, source_id, ack, a[2])
+            exp = _layout_fast(service, subservice, apid, seq, source_id, ack, a[2])
             if err:
                 return ("C11/PusTc.app_data/raises", "setter then pack raised %s" % (ires,))
             if ires[1] != exp:
@@ -273,7 +899,7 @@ def oracle(case, ires, sres):
     if op == 510:
         f = _final_values(a)
         if valid_args(f) and valid_args(a):
-            exp = pc.tc_layout(*f[0], f[1])
+            exp = _layout_fast(*f[0], f[1])
             if err:
                 return ("C11/PusTc.history/raises", "valid history raised %s" % (ires,))
             if ires[2] != exp or ires[3] != [len(exp)]:
@@ -281,8 +907,10 @@ def oracle(case, ires, sres):
             if ires[1] != exp:
                 return ("C02/PusTc.to_space_packet/stale-octets", "after %s the space-packet view packs %s but pack() gives %s" % (a[2:], ires[1][-6:], exp[-6:]))
         return None
+    if op == 520:
+        return _hist_oracle(a, ires)
     if op == 506:
-        if ires[1] != [int(pc.crc16(a[0]) == 0)]:
+        if ires[1] != [int(fcrc(a[0]) == 0)]:
             return ("C02/check_pus_crc", "%s -> %s" % (a[0][:16], ires))
     return None
 
